@@ -109,6 +109,8 @@ func runCheck(id, tier string) int {
 		return checkC05(tier)
 	case "C18":
 		return checkC18(tier)
+	case "C10":
+		return checkC10(tier)
 	case "C06":
 		return checkC06(tier)
 	case "C07":
